@@ -29,7 +29,11 @@
 (*   the linter of EVERY document under the lock, then re-processes and publishes each.    *)
 (*   ConfigRebuilds = FALSE is a deviation a seeded change introduced: the linters of      *)
 (*   open documents are kept (settings merged into them), so an override that is removed   *)
-(*   again stays in force.                                                                 *)
+(*   again stays in force.  The client may also change its settings WITHOUT announcing      *)
+(*   them (ChangeSilently): the server then learns of them through a pull, and nothing is   *)
+(*   promised until the change is announced.  RebuildOnlyIfChanged = TRUE is another seeded  *)
+(*   deviation: the announcement rebuilds the linters only if the server's copy changes -    *)
+(*   which it does not when a pull has already delivered the new settings.                   *)
 (*   Identifiers.  For a source file the identifiers found in it are merged into the      *)
 (*   document's dictionary (so that a comment may mention them).  Every update loads the   *)
 (*   dictionary afresh and REPLACES the document's when they differ - which they always    *)
@@ -45,12 +49,13 @@
 (*   has, so those of earlier versions of the text linger.                                   *)
 EXTENDS Naturals, Sequences, FiniteSets, TLC
 
-CONSTANTS Urls, Texts, Cfgs, MaxMsgs, MaxInFlight, VersionGuard, RefreshFromMemory, ConfigRebuilds, ForgetIdentRecord, IdentsAccumulate
+CONSTANTS Urls, Texts, Cfgs, MaxMsgs, MaxInFlight, VersionGuard, RefreshFromMemory, ConfigRebuilds, ForgetIdentRecord, IdentsAccumulate, RebuildOnlyIfChanged
 
 VARIABLES clientText,   \* newest text the client sent per url ("none": not open)
           docText,      \* server's document state per url ("none": no entry); with the version it came from
           published,    \* what the last publishDiagnostics for the url was computed from: [t, c] (t = "none": empty)
           clientCfg,    \* the configuration the client holds (and answers workspace/configuration with)
+          announced,    \* has the client announced its current configuration?
           serverCfg,    \* the server's copy
           docCfg,       \* the configuration each document's linter was built with
           dictIdents,   \* whose identifiers (which texts') the document's dictionary holds
@@ -59,8 +64,8 @@ VARIABLES clientText,   \* newest text the client sent per url ("none": not open
           hs,           \* in-flight handlers: sequence of [kind, u, t, ver, pc]
           sent,         \* number of messages sent
           overlapped    \* history flag: two handlers for the same url were in flight together
-lsvars == <<clientText, docText, published, clientCfg, serverCfg, docCfg, dictIdents, identRecord, disk, hs, sent, overlapped>>
-cfgvars == <<clientCfg, serverCfg, docCfg, dictIdents, identRecord>>
+lsvars == <<clientText, docText, published, clientCfg, announced, serverCfg, docCfg, dictIdents, identRecord, disk, hs, sent, overlapped>>
+cfgvars == <<clientCfg, announced, serverCfg, docCfg, dictIdents, identRecord>>
 idvars == <<dictIdents, identRecord>>
 C0 == CHOOSE c \in Cfgs : TRUE
 Empty == [t |-> "none", c |-> "-", i |-> {}]
@@ -74,7 +79,7 @@ IdentUpdate(ids, rec, isNew, t) ==
 
 LInit == /\ clientText = [u \in Urls |-> "none"] /\ docText = [u \in Urls |-> [t |-> "none", v |-> 0]]
          /\ published = [u \in Urls |-> Empty] /\ disk = [u \in Urls |-> "none"]
-         /\ clientCfg = C0 /\ serverCfg = C0 /\ docCfg = [u \in Urls |-> C0]
+         /\ clientCfg = C0 /\ announced = TRUE /\ serverCfg = C0 /\ docCfg = [u \in Urls |-> C0]
          /\ dictIdents = [u \in Urls |-> {}] /\ identRecord = [u \in Urls |-> "none"]
          /\ hs = <<>> /\ sent = 0 /\ overlapped = FALSE
 
@@ -82,20 +87,23 @@ SameUrlInFlight(u) == \E i \in DOMAIN hs : hs[i].u = u \/ hs[i].kind = "config" 
 Start(h) == /\ sent < MaxMsgs /\ Len(hs) < MaxInFlight
             /\ hs' = Append(hs, h) /\ sent' = sent + 1
             /\ overlapped' = (overlapped \/ SameUrlInFlight(h.u))
-SendOpen(u, t) == clientText[u] = "none" /\ Start([kind |-> "open", c |-> C0, todo |-> <<>>, u |-> u, t |-> t, ver |-> sent + 1, pc |-> "cfg"])
+SendOpen(u, t) == clientText[u] = "none" /\ Start([kind |-> "open", c |-> C0, changed |-> FALSE, todo |-> <<>>, u |-> u, t |-> t, ver |-> sent + 1, pc |-> "cfg"])
                   /\ clientText' = [clientText EXCEPT ![u] = t] /\ UNCHANGED <<docText, published, disk, cfgvars>>
-SendChange(u, t) == clientText[u] # "none" /\ Start([kind |-> "change", c |-> C0, todo |-> <<>>, u |-> u, t |-> t, ver |-> sent + 1, pc |-> "cfg"])
+SendChange(u, t) == clientText[u] # "none" /\ Start([kind |-> "change", c |-> C0, changed |-> FALSE, todo |-> <<>>, u |-> u, t |-> t, ver |-> sent + 1, pc |-> "cfg"])
                     /\ clientText' = [clientText EXCEPT ![u] = t] /\ UNCHANGED <<docText, published, disk, cfgvars>>
 \* the editor saves its buffer, then notifies
-SendSave(u) == clientText[u] # "none" /\ Start([kind |-> "save", c |-> C0, todo |-> <<>>, u |-> u, t |-> "disk", ver |-> sent + 1, pc |-> "read"])
+SendSave(u) == clientText[u] # "none" /\ Start([kind |-> "save", c |-> C0, changed |-> FALSE, todo |-> <<>>, u |-> u, t |-> "disk", ver |-> sent + 1, pc |-> "read"])
                /\ disk' = [disk EXCEPT ![u] = clientText[u]] /\ UNCHANGED <<clientText, docText, published, cfgvars>>
 \* an add-to-dictionary command or a configuration change: the document is re-processed
-SendRefresh(u) == clientText[u] # "none" /\ Start([kind |-> "refresh", c |-> C0, todo |-> <<>>, u |-> u, t |-> "?", ver |-> sent + 1, pc |-> "read"])
+SendRefresh(u) == clientText[u] # "none" /\ Start([kind |-> "refresh", c |-> C0, changed |-> FALSE, todo |-> <<>>, u |-> u, t |-> "?", ver |-> sent + 1, pc |-> "read"])
                   /\ UNCHANGED <<clientText, docText, published, disk, cfgvars>>
 \* the user changes a setting: the client stores it and announces it (the notification carries the settings)
-SendConfig(c) == c # clientCfg /\ Start([kind |-> "config", c |-> c, todo |-> <<>>, u |-> "*", t |-> "?", ver |-> sent + 1, pc |-> "store"])
-                 /\ clientCfg' = c /\ UNCHANGED <<clientText, docText, published, disk, serverCfg, docCfg, idvars>>
-SendClose(u) == clientText[u] # "none" /\ Start([kind |-> "close", c |-> C0, todo |-> <<>>, u |-> u, t |-> "none", ver |-> sent + 1, pc |-> "close"])
+SendConfig(c) == (c # clientCfg \/ ~announced) /\ Start([kind |-> "config", c |-> c, changed |-> TRUE, todo |-> <<>>, u |-> "*", t |-> "?", ver |-> sent + 1, pc |-> "store"])
+                 /\ clientCfg' = c /\ announced' = TRUE /\ UNCHANGED <<clientText, docText, published, disk, serverCfg, docCfg, idvars>>
+\* the settings change on the client's side only
+ChangeSilently(c) == c # clientCfg /\ sent < MaxMsgs /\ sent' = sent + 1 /\ clientCfg' = c /\ announced' = FALSE
+                     /\ UNCHANGED <<clientText, docText, published, disk, serverCfg, docCfg, idvars, hs, overlapped>>
+SendClose(u) == clientText[u] # "none" /\ Start([kind |-> "close", c |-> C0, changed |-> FALSE, todo |-> <<>>, u |-> u, t |-> "none", ver |-> sent + 1, pc |-> "close"])
                 /\ clientText' = [clientText EXCEPT ![u] = "none"] /\ UNCHANGED <<docText, published, disk, cfgvars>>
 
 Remove(i) == SubSeq(hs, 1, i - 1) \o SubSeq(hs, i + 1, Len(hs))
@@ -112,7 +120,7 @@ StepRead(i) ==
 \* pull_config: the client's current configuration becomes the server's; the handler copies it for later
 StepCfg(i) == /\ hs[i].pc = "cfg" /\ hs' = [hs EXCEPT ![i].pc = "load", ![i].c = clientCfg]
               /\ serverCfg' = clientCfg
-              /\ UNCHANGED <<clientText, docText, published, disk, sent, overlapped, clientCfg, docCfg, idvars>>
+              /\ UNCHANGED <<clientText, docText, published, disk, sent, overlapped, clientCfg, announced, docCfg, idvars>>
 StepLoad(i) == hs[i].pc = "load" /\ Advance(i, "set") /\ UNCHANGED <<clientText, docText, published, disk, sent, overlapped, cfgvars>>
 \* update_document under the doc_state lock
 StepSet(i) ==
@@ -133,7 +141,7 @@ StepSet(i) ==
         IN IF dropped \/ stale THEN UNCHANGED idvars
            ELSE /\ dictIdents' = [dictIdents EXCEPT ![h.u] = r[1]]
                 /\ identRecord' = [identRecord EXCEPT ![h.u] = r[2]]
-  /\ UNCHANGED <<clientText, published, disk, sent, overlapped, clientCfg, serverCfg>>
+  /\ UNCHANGED <<clientText, published, disk, sent, overlapped, clientCfg, announced, serverCfg>>
 \* publish_diagnostics: lints whatever the document state holds at this moment
 StepPub(i) ==
   /\ hs[i].pc = "pub" /\ hs' = Remove(i)
@@ -145,19 +153,20 @@ StepClose(i) ==
   /\ docText' = [docText EXCEPT ![hs[i].u] = [t |-> "none", v |-> 0]]
   /\ published' = [published EXCEPT ![hs[i].u] = Empty]
   /\ dictIdents' = [dictIdents EXCEPT ![hs[i].u] = {}] /\ identRecord' = [identRecord EXCEPT ![hs[i].u] = "none"]
-  /\ UNCHANGED <<clientText, disk, sent, overlapped, clientCfg, serverCfg, docCfg>>
+  /\ UNCHANGED <<clientText, disk, sent, overlapped, clientCfg, announced, serverCfg, docCfg>>
 \* didChangeConfiguration: store the announced settings ...
-StepStore(i) == /\ hs[i].pc = "store" /\ Advance(i, "rebuild") /\ serverCfg' = hs[i].c
-                /\ UNCHANGED <<clientText, docText, published, disk, sent, overlapped, clientCfg, docCfg, idvars>>
+StepStore(i) == /\ hs[i].pc = "store" /\ hs' = [hs EXCEPT ![i].pc = "rebuild", ![i].changed = (serverCfg # hs[i].c)] /\ serverCfg' = hs[i].c
+                /\ UNCHANGED <<clientText, docText, published, disk, sent, overlapped, clientCfg, announced, docCfg, idvars>>
 \* ... rebuild every document's linter under the lock and note the documents ...
 RECURSIVE SeqOf(_)
 SeqOf(S) == IF S = {} THEN <<>> ELSE LET x == CHOOSE y \in S : TRUE IN <<x>> \o SeqOf(S \ {x})
 StepRebuild(i) ==
   /\ hs[i].pc = "rebuild"
   /\ LET open == {u \in Urls : docText[u].t # "none"} IN
-     /\ docCfg' = IF ConfigRebuilds THEN [u \in Urls |-> IF u \in open THEN serverCfg ELSE docCfg[u]] ELSE docCfg
+     /\ docCfg' = IF ConfigRebuilds /\ (~RebuildOnlyIfChanged \/ hs[i].changed)
+                  THEN [u \in Urls |-> IF u \in open THEN serverCfg ELSE docCfg[u]] ELSE docCfg
      /\ hs' = IF open = {} THEN Remove(i) ELSE [hs EXCEPT ![i].pc = "each", ![i].todo = SeqOf(open)]
-  /\ UNCHANGED <<clientText, docText, published, disk, sent, overlapped, clientCfg, serverCfg, idvars>>
+  /\ UNCHANGED <<clientText, docText, published, disk, sent, overlapped, clientCfg, announced, serverCfg, idvars>>
 \* ... then, document by document: re-process from memory (which pulls the configuration again) and publish
 StepEach(i) ==
   /\ hs[i].pc = "each"
@@ -171,17 +180,17 @@ StepEach(i) ==
            /\ published' = [published EXCEPT ![u] = IF docText[u].t = "none" THEN Empty
                                                     ELSE [t |-> docText[u].t, c |-> docCfg[u], i |-> r[1]]]
      /\ hs' = IF rest = <<>> THEN Remove(i) ELSE [hs EXCEPT ![i].todo = rest]
-  /\ UNCHANGED <<clientText, docText, disk, sent, overlapped, clientCfg, docCfg>>
+  /\ UNCHANGED <<clientText, docText, disk, sent, overlapped, clientCfg, announced, docCfg>>
 
 LNext == \/ \E u \in Urls, t \in Texts : SendOpen(u, t) \/ SendChange(u, t)
          \/ \E u \in Urls : SendClose(u) \/ SendSave(u) \/ SendRefresh(u)
-         \/ \E c \in Cfgs : SendConfig(c)
+         \/ \E c \in Cfgs : SendConfig(c) \/ ChangeSilently(c)
          \/ \E i \in DOMAIN hs : StepRead(i) \/ StepCfg(i) \/ StepLoad(i) \/ StepSet(i) \/ StepPub(i) \/ StepClose(i)
                                   \/ StepStore(i) \/ StepRebuild(i) \/ StepEach(i)
 
 Quiescent == hs = <<>>
 \* C09: once everything has been processed, the last word on each document is its newest text
-LastWord == Quiescent => \A u \in Urls :
+LastWord == Quiescent /\ announced => \A u \in Urls :
    published[u] = (IF clientText[u] = "none" THEN Empty ELSE [t |-> clientText[u], c |-> clientCfg, i |-> {clientText[u]}])
 \* ... which the code guarantees only when handlers for one document never overlap
 LastWordUnlessOverlapped == LastWord \/ overlapped
